@@ -422,6 +422,8 @@ def run(rep: vlib.Reporter, tier: str, seed: int) -> None:
         "modelled, not verified: DataTypeValidator.validate control flow, mlodaAPI._process_features strict propagation, "
         "Engine.set_data_type (hand-written Model/Validate.v tied by exhaustive correspondence)"]
     found_input = False
+    from harness import srctie      # source-text tie (Props/SrcTie.v): the literal type sets read from the source text = the tables
+    found_input = (not srctie.check(rep)) or found_input
 
     # (a)
     vc = validator_cases()
@@ -550,8 +552,6 @@ def run(rep: vlib.Reporter, tier: str, seed: int) -> None:
     rep.add("exhaustive", True)
     for c in (vc[40], ec[100], ec[-1], cc[17]):
         rep.sample(c)
-    from harness import srctie      # source-text tie (Props/SrcTie.v): the literal type sets read from the source text = the tables
-    found_input = (not srctie.check(rep)) or found_input
 
     # broken proof: look for a concrete failing input
     if not pr.ok:
@@ -577,7 +577,7 @@ def replay(path: str) -> int:
     r = json.load(open(path))["replay"]
     if r.get("kind") == "srctie":
         from harness import srctie
-        srctie.replay(r)
+        srctie.replay(r, show=True)
         return 0
     if r.get("kind") == "e2e":
         obs = e2e_one(r["fw"], r["declared"], r["atype"], r["mode"], r["mix"])
